@@ -294,6 +294,11 @@ var secretImpl = "memguard"
 // the executions that follow.
 var execBackend, execSuffix = "memory", ""
 
+// execAWSKMS != 0 puts the executions that follow on the AWS KMS plug-in (1 = SDK v1 client, 2 = v2) over a fake
+// two-region cloud; the crash-model decrypt then runs as a process that prefers the other region while the first
+// region is unreachable.
+var execAWSKMS = 0
+
 var journalPath = os.Getenv("VERIF_JOURNAL")
 
 func journal(s string) {
@@ -308,7 +313,12 @@ func journal(s string) {
 
 // freshDecrypt decrypts drr through a brand-new cache-less factory over the (fault-free) store.
 func (e *env) freshDecrypt(part string, drr *appencryption.DataRowRecord) ([]byte, error) {
-	ff := e.w.Factory(cfgOf("nocache"), "svc", "prod")
+	if e.w.Cloud != nil {
+		// a process started in the other region while the region that generated the data key is down
+		e.w.Cloud.Regions[world.AWSRegions[0]].FailDecrypt = true
+		defer func() { e.w.Cloud.Regions[world.AWSRegions[0]].FailDecrypt = false }()
+	}
+	ff := e.w.FreshFactory(cfgOf("nocache"), "svc", "prod")
 	defer ff.Close()
 	fs, err := ff.GetSession(part)
 	if err != nil {
@@ -322,6 +332,9 @@ func (e *env) freshDecrypt(part string, drr *appencryption.DataRowRecord) ([]byt
 func execute(sc scenario, cfgName, op string, fs []fault) (res result) {
 	e := &env{w: world.NewOn(secretImpl, execBackend), cfg: cfgOf(cfgName)}
 	e.w.Suffix = execSuffix
+	if execAWSKMS != 0 {
+		e.w.UseAWSKMS(execAWSKMS)
+	}
 	defer e.w.Close()
 	// secrets whose reference was taken by the "parent SK re-resolved" step of intermediateKeyFromEKR
 	reresolved := map[string]bool{}
